@@ -10,6 +10,8 @@ cd $wt
 demodir=.
 grep -q '^package x2j' $src/DEMO_test.go && demodir=x2j-wrapper
 grep -q "^package j2x" $src/DEMO_test.go && demodir=j2x
+md=$(python3 -c "import json,sys; print(json.load(open(sys.argv[1])).get('demo_dir',''))" $src/meta.json 2>/dev/null)
+[ -n "$md" ] && [ -d "$md" ] && demodir=$md
 [ -n "$DEMODIR" ] && demodir=$DEMODIR
 res=""
 git apply --whitespace=nowarn $src/patch.diff && res="$res applies" || res="$res APPLY-FAIL"
